@@ -22,12 +22,18 @@ NOT_DECIDED = ("the relative order of several after_tag calls (not specified); b
                "element's ancestry are covered through C01/C03 obligations, not re-stated here")
 
 
+def t_skip(chk, ix):
+    from .. import rules_container
+    rules_container.check_outline_skip(chk, ix)
+
+
 def run(chk, ix, tier):
     run_parallel(chk, [
         (T.t_run_hook, (("H1", "H5", "V6"),)),
         (T.t_step, (("H3",),)),
         (T.t_scenario, (("H2", "V2"),)),
         (T.t_run_model, (("H4", "STM", "V6"),)),
+        (t_skip, ()),
     ] + T.container_tasks(("H2", "ST", "V3")))
-    for r, n in (("H1", 10), ("H2", 3), ("H3", 8), ("H4", 1), ("H5", 10)):
+    for r, n in (("H1", 10), ("H2", 3), ("H3", 8), ("H4", 1), ("H5", 10), ("H6", 2)):
         chk.require_instances(r, n)
